@@ -51,14 +51,29 @@ use futures::stream::{Stream};
 use futures::task;
 use futures::task::{Poll, Context};
 
+#[cfg(not(desync_verif))]
 use std::sync::*;
+#[cfg(desync_verif)]
+use vsched::sync::*;
 use std::pin::{Pin};
 use std::collections::VecDeque;
 
+#[cfg(not(desync_verif))]
 lazy_static! {
     /// Desync for disposing of references used in pipes (if a pipe is closed with pending data, this avoids clearing it in the same context as the pipe monitor)
     static ref REFERENCE_CHUTE: Desync<()> = Desync::new(());
 }
+
+/// Verification hook: one reference chute per controlled execution instead of one per process
+#[cfg(desync_verif)]
+struct VerifReferenceChute;
+#[cfg(desync_verif)]
+impl std::ops::Deref for VerifReferenceChute {
+    type Target = Desync<()>;
+    fn deref(&self) -> &Desync<()> { vsched::exec_local(|| Desync::new(())) }
+}
+#[cfg(desync_verif)]
+static REFERENCE_CHUTE: VerifReferenceChute = VerifReferenceChute;
 
 /// The maximum number of items to queue on a pipe stream before we stop accepting new input
 const PIPE_BACKPRESSURE_COUNT: usize = 5;
